@@ -4,7 +4,6 @@ import (
 	"flag"
 	"fmt"
 	"os"
-	"runtime"
 	"strings"
 )
 
@@ -84,7 +83,7 @@ func main() {
 					bad++
 					continue
 				}
-				dischargeAll(res.Script, *tier, runtime.NumCPU())
+				dischargeAll(res.Script, *tier, solverWorkers())
 				nok := 0
 				for _, o := range res.Script.obls {
 					if o.ok() {
